@@ -348,10 +348,10 @@ def _jobs(fn: str, tier: str, cover: list) -> list[dict]:
                                             boards=boards, antes=antes),
                                 budget_s=B, must_cover=cover))
     # symbolic stack + 3 symbolic automation bits (traced); the equivalence harness runs every hand twice, so in the
-    # quick tier it keeps 2 bits symbolic (measured: 3 bits need ~1 000 paths / 900+ CPU-s there)
+    # quick tier it keeps 1 bit symbolic (measured: 2 bits > 600 paths / 600 CPU-s, 3 bits > 1 000 paths / 900 CPU-s there)
     fixed = {a.name: True for a in Automation}
     free = ('CARD_BURNING', 'HOLE_CARDS_SHOWING_OR_MUCKING', 'RUNOUT_COUNT_SELECTION')
-    for nm in (free[:2] if (fn == 'h_equiv' and tier == 'quick') else free):
+    for nm in (free[:1] if (fn == 'h_equiv' and tier == 'quick') else free):
         fixed.pop(nm)
     sym_cases = [('NT', 2, (50, 50), 'Rc')]
     if tier == 'thorough':
@@ -360,7 +360,7 @@ def _jobs(fn: str, tier: str, cover: list) -> list[dict]:
         out.append(dict(name=f'sym-stack/{code}/n{n}/{script}', fn=fn,
                         params=dict(code=code, n=n, script=script, stacks=stacks, mode='C', fixed=fixed,
                                     sym_stack=n - 1),
-                        budget_s=max(B, 600), must_cover=cover, prio=9))
+                        budget_s=max(B, 900 if fn == 'h_equiv' else 600), must_cover=cover, prio=9))
     allon = {a.name: True for a in Automation}
     for seat in (0, 1):
         out.append(dict(name=f'sym-stack/NT/n2/cc/bb-ante/seat{seat}', fn=fn,
